@@ -16,20 +16,29 @@
         RedisError classifier (Classify).
 
    Floats are pairs <<n, d>> meaning n/d with d a power of two (exactly representable; FloatText gives the decimal
-   text Redis would send).  TLC integers are 32 bit, so integer payloads stay below 2^31.
+   text Redis would send).  TLC integers are 32 bit, so integer payloads stay below 2^31; numbers at and beyond the
+   boundaries of the Go types (round 2, the classes num, numint, numarr, numscan, numdbl) are carried as decimal TEXT with an abstract magnitude class
+   ("i64max", "u64max+1", ...) and the module predicts value-exact (the decimal text of the result) or error.
+   C15 family "comp" (round 2): the structured replies with exactly ONE malformed component; the module predicts
+   for the accessors that must read that component "an error" (X), Nil (N) or the component's RedisError (R).
 
    Negative configurations (non-vacuity of the invariants):
      BugFirstWins         MapOf keeps the first value of a repeated field            -> LastWins violated
      AllowNumericDocKeys  FT.SEARCH documents may be named "1", "2" (RESP2 layout
                           [n, key, score, key ...] becomes ambiguous)                  -> Unambiguous violated
-     BugOkWithoutAddr     a redirect classifier says ok for "MOVED" without address    -> RedirectHasAddr violated *)
+     BugOkWithoutAddr     a redirect classifier says ok for "MOVED" without address    -> RedirectHasAddr violated
+     BugU64ViaI64         AsUint64 of a string = uint64(AsInt64): "-5" accepted, 2^63 refused -> NumRanges violated
+     BugCompKeepsRule     a structured helper may return a value although one of its
+                          components is malformed (the plain Rule class VE)              -> CompNeverValue violated *)
 EXTENDS Integers, Sequences, FiniteSets, TLC, Json
 
 CONSTANTS Gen,                  \* "c15" | "c16": which case family the initial states enumerate
           Deep,                 \* BOOLEAN: larger bounds (thorough tier)
           Emit,                 \* BOOLEAN: print one CASE record per state
           OnlyFam,              \* "" or the one case class to enumerate (negative configs)
-          BugFirstWins, AllowNumericDocKeys, BugOkWithoutAddr
+          BugFirstWins, AllowNumericDocKeys, BugOkWithoutAddr,
+          BugU64ViaI64,         \* the unsigned conversion predicted through the signed one (ParseInt and a cast)
+          BugCompKeepsRule      \* family comp forgets that a malformed component must fail the helper
 
 VARIABLES fam,                  \* case class
           dat,                  \* abstract datum (C16) or shape descriptor (C15)
@@ -69,6 +78,10 @@ Fixed4(f) == LET q == ((Abs(f[1]) % f[2]) * 10000) \div f[2] IN
              (IF q = 0 THEN "0000" ELSE ToString(q))
 FV(f)   == [F_ |-> <<f[1], f[2]>>]      \* an expected Go float64: exactly n/d
 NILV    == [Nil_ |-> TRUE]              \* an expected nil (nil map / nil slice / nil interface)
+FAIL    == [Fail_ |-> TRUE]             \* an expected error (no value)
+DEC(t)  == [Dec_ |-> t]                 \* an expected Go integer (int64 / uint64): the one whose decimal text is t
+F2(sg, e) == [F2_ |-> <<sg, e>>]        \* an expected Go float64: sg * 2^e
+SpecialF(t) == CASE t \in {"inf", "+inf"} -> [Inf_ |-> 1] [] t = "-inf" -> [Inf_ |-> -1] [] OTHER -> [NaN_ |-> TRUE]
 ZERO    == <<0, 1>>
 
 \* ------------------------------------------------------------------------------------------------ reply trees
@@ -81,6 +94,7 @@ Bulk(s)     == Nd("bulk", s, 0, 1, <<>>)
 SBulk(s)    == Nd("sbulk", s, 0, 1, <<>>)              \* streamed (chunked) blob string
 Simple(s)   == Nd("simple", s, 0, 1, <<>>)
 IntN(n)      == Nd("int", "", n, 1, <<>>)
+IntX(s)      == Nd("intx", s, 0, 1, <<>>)              \* an integer reply given by its decimal text (beyond 32 bits)
 Null3       == Nd("null", "", 0, 1, <<>>)               \* RESP3 _
 NullB       == Nd("nullbulk", "", 0, 1, <<>>)           \* RESP2 $-1
 NullA       == Nd("nullarr", "", 0, 1, <<>>)            \* RESP2 *-1
@@ -107,7 +121,7 @@ Bulks(ss)   == [j \in DOMAIN ss |-> Bulk(ss[j])]
 FlatPairs(ps) == Flatten([j \in DOMAIN ps |-> <<Bulk(ps[j][1]), Bulk(ps[j][2])>>])
 
 AggKinds == {"arr", "set", "map", "push", "sarr", "sset", "smap", "attr"}
-Resp2Types == {"bulk", "simple", "int", "nullbulk", "nullarr", "err", "arr"}
+Resp2Types == {"bulk", "simple", "int", "intx", "nullbulk", "nullarr", "err", "arr"}
 
 RECURSIVE OnlyResp2(_)
 OnlyResp2(n) == n.t \in Resp2Types /\ \A j \in DOMAIN n.a : OnlyResp2(n.a[j])
@@ -130,6 +144,7 @@ Norm(n) == LET kids == [j \in DOMAIN n.a |-> Norm(n.a[j])] IN
 
 \* type class of a decoded node, as the accessor documentation speaks about it
 TopT(n) == CASE n.t \in {"bulk", "simple"} -> "str"
+             [] n.t = "intx"               -> "int"
              [] n.t \in {"arr", "set"}     -> "arr"
              [] n.t \in {"err", "bloberr"} -> "err"
              [] OTHER -> n.t               \* int double bool big verb map push null end
@@ -151,8 +166,9 @@ FoldMap(ps) == IF ps = <<>> THEN [k \in {} |-> ""]
 RECURSIVE AnyOf(_)
 AnyOf(n) == CASE n.t \in {"bulk", "simple", "big", "verb"} -> n.s
               [] n.t = "int"    -> n.i
+              [] n.t = "intx"   -> [Dec_ |-> n.s]
               [] n.t = "bool"   -> (n.i = 1)
-              [] n.t = "double" -> FV(<<n.i, n.d>>)
+              [] n.t = "double" -> IF n.d = 0 THEN SpecialF(n.s) ELSE FV(<<n.i, n.d>>)
               [] n.t = "null"   -> NILV
               [] n.t \in {"err", "bloberr"} -> [Err_ |-> n.s]
               [] n.t \in {"arr", "set"} -> [j \in DOMAIN n.a |-> AnyOf(n.a[j])]
@@ -166,7 +182,7 @@ E(acc, val) == [acc |-> acc, val |-> val]
 \* what holds for every decoded tree whatever the command: the Is* predicates, ToAny and ToArray
 Common(tr) ==
     LET n == Norm(tr) IN
-    << E("IsNil", n.t = "null"), E("IsInt64", n.t = "int"), E("IsFloat64", n.t = "double"),
+    << E("IsNil", n.t = "null"), E("IsInt64", n.t \in {"int", "intx"}), E("IsFloat64", n.t = "double"),
        E("IsString", n.t \in {"bulk", "simple"}), E("IsBool", n.t = "bool"), E("IsArray", n.t \in {"arr", "set"}),
        E("IsMap", n.t = "map"), E("ToAny", AnyOf(n)) >>
     \o Opt(n.t \in {"arr", "set"}, << E("ToArray", n.a) >>)
@@ -393,10 +409,73 @@ X_tree(d, p) == LET n == Norm(d)
                     ps == [j \in 1..(Len(n.a) \div 2) |-> <<n.a[2 * j - 1].s, n.a[2 * j]>>] IN
                 IF n.t = "map" THEN << E("ToMap", MapOf(ps)), E("AsMap", MapOf(ps)) >> ELSE <<>>
 
+\* ---- numbers at and beyond the boundaries of their Go type (round 2).  TLC integers are 32 bit: a number is its
+\*      sign, an abstract magnitude class and a syntactic form; the text on the wire comes from MagDigits and the
+\*      module predicts, per accessor, value-exact (DEC / F2 / FV) or error (FAIL) from the mathematical range of the
+\*      Go type.  Syntax rules are those of the code as it is: AsInt64 accepts [+-]digits, AsUint64 digits only,
+\*      AsFloat64 what strconv.ParseFloat accepts (decimal, exponent, inf, nan; no blanks, no "0x10").
+Mags == <<"0", "5", "i64max", "i64max+1", "i64max+2", "u64max", "u64max+1", "2^65">>
+MagRank(m) == CHOOSE j \in DOMAIN Mags : Mags[j] = m
+MagDigits(m) == CASE m = "0" -> "0" [] m = "5" -> "5"
+                  [] m = "i64max"   -> "9223372036854775807"  [] m = "i64max+1" -> "9223372036854775808"
+                  [] m = "i64max+2" -> "9223372036854775809"  [] m = "u64max"   -> "18446744073709551615"
+                  [] m = "u64max+1" -> "18446744073709551616" [] m = "2^65"     -> "36893488147419103232"
+\* the mathematical value sg * m lies in the range of the type
+InI64(sg, m) == IF sg = "-" THEN MagRank(m) <= MagRank("i64max+1") ELSE MagRank(m) <= MagRank("i64max")
+InU64(sg, m) == sg # "-" /\ MagRank(m) <= MagRank("u64max")
+\* the double nearest to sg * m (2^63 - 1 and 2^63 + 1 round to 2^63, 2^64 - 1 to 2^64)
+NearestF(sg, m) == LET neg == sg = "-" IN
+                   CASE m = "0" -> FV(ZERO) [] m = "5" -> FV(<<IF neg THEN -5 ELSE 5, 1>>)
+                     [] m \in {"i64max", "i64max+1", "i64max+2"} -> F2(IF neg THEN -1 ELSE 1, 63)
+                     [] m \in {"u64max", "u64max+1"} -> F2(IF neg THEN -1 ELSE 1, 64)
+                     [] m = "2^65" -> F2(IF neg THEN -1 ELSE 1, 65)
+NumDec  == {[form |-> "dec", sg |-> sg, m |-> m] : sg \in {"", "-"}, m \in Range(Mags)} \ {[form |-> "dec", sg |-> "-", m |-> "0"]}
+NumOdd  == {[form |-> f, sg |-> "", m |-> "5"] : f \in {"plus", "lead-space", "trail-space", "hex", "exp", "frac", "empty",
+                                                       "inf", "-inf", "nan", "-nan", "word"}}
+NumText(d) == CASE d.form = "dec" -> d.sg \o MagDigits(d.m) [] d.form = "plus" -> "+5" [] d.form = "lead-space" -> " 5"
+                [] d.form = "trail-space" -> "5 " [] d.form = "hex" -> "0x10" [] d.form = "exp" -> "1e3"
+                [] d.form = "frac" -> "1.5" [] d.form = "empty" -> "" [] d.form = "word" -> "zz"
+                [] OTHER -> d.form                                    \* inf -inf nan -nan
+NumValText(d) == IF d.form = "plus" THEN "5" ELSE NumText(d)          \* decimal text of the value of an accepted integer
+NumI64(d) == IF (d.form = "dec" /\ InI64(d.sg, d.m)) \/ d.form = "plus" THEN DEC(NumValText(d)) ELSE FAIL
+NumU64(d) == IF BugU64ViaI64 THEN (IF NumI64(d) = FAIL THEN FAIL ELSE DEC("cast:" \o NumValText(d)))
+             ELSE IF d.form = "dec" /\ InU64(d.sg, d.m) THEN DEC(NumValText(d)) ELSE FAIL
+NumF64(d) == CASE d.form = "dec" -> NearestF(d.sg, d.m) [] d.form = "plus" -> FV(<<5, 1>>) [] d.form = "exp" -> FV(<<1000, 1>>)
+               [] d.form = "frac" -> FV(<<3, 2>>) [] d.form \in {"inf", "-inf", "nan", "-nan"} -> SpecialF(d.form)
+               [] OTHER -> FAIL
+NumLabel(d) == IF d.form = "dec" THEN "dec-" \o (IF d.sg = "-" THEN "minus-" ELSE "") \o d.m ELSE d.form
+\* a string reply holding a number (RESP2 bulk; the same in RESP3)
+D_num    == NumDec \cup NumOdd
+S_num(d, p) == Bulk(NumText(d))
+X_num(d, p) == << E("ToString", NumText(d)), E("AsInt64", NumI64(d)), E("AsUint64", NumU64(d)), E("AsFloat64", NumF64(d)),
+                  E("AsBool", FALSE), E("ToInt64", FAIL) >>
+\* an integer reply at the boundaries of int64 ("min" = -2^63)
+D_numint == {"9223372036854775807", "-9223372036854775808", "-1", "0", "1"}
+S_numint(d, p) == IntX(d)
+X_numint(d, p) == << E("ToInt64", DEC(d)), E("AsInt64", DEC(d)), E("AsBool", d # "0"), E("ToString", FAIL), E("AsFloat64", FAIL) >>
+                  \o Opt(d \in {"9223372036854775807", "0", "1"}, << E("AsUint64", DEC(d)) >>)
+\* one-element arrays of numeric strings: the slice accessors parse every element
+D_numarr == NumDec \cup {d \in NumOdd : d.form \in {"plus", "lead-space", "hex", "exp", "word"}}
+S_numarr(d, p) == Arr(<<Bulk(NumText(d))>>)
+X_numarr(d, p) == << E("AsStrSlice", <<NumText(d)>>), E("AsIntSlice", IF NumI64(d) = FAIL THEN FAIL ELSE <<NumI64(d)>>),
+                     E("AsFloatSlice", IF NumF64(d) = FAIL THEN FAIL ELSE <<NumF64(d)>>) >>
+\* SCAN cursors are unsigned 64-bit numbers sent as strings
+D_numscan == {d \in NumDec : d.m # "5"} \cup {d \in NumOdd : d.form \in {"plus", "hex", "empty"}}
+S_numscan(d, p) == Arr(<<Bulk(NumText(d)), Arr(<<Bulk("a")>>)>>)
+X_numscan(d, p) == << E("AsScanEntry", IF NumU64(d) = FAIL THEN FAIL ELSE [Cursor |-> NumU64(d), Elements |-> <<"a">>]) >>
+\* hashes of counters: AsIntMap parses every value (flat array in RESP2, map in RESP3)
+D_nummap == NumDec \cup {d \in NumOdd : d.form \in {"plus", "word", "exp"}}
+S_nummap(d, p) == S_strmap(<< <<"k1", NumText(d)>> >>, p)
+X_nummap(d, p) == << E("AsIntMap", IF NumI64(d) = FAIL THEN FAIL ELSE [k1 |-> NumI64(d)]), E("AsStrMap", [k1 |-> NumText(d)]) >>
+\* RESP3 doubles that are not finite
+D_numdbl == {"inf", "-inf", "nan"}
+S_numdbl(d, p) == Nd("double", d, 0, 0, <<>>)
+X_numdbl(d, p) == << E("AsFloat64", SpecialF(d)), E("ToFloat64", SpecialF(d)) >>
+
 \* ---- dispatch
 Classes16 == {"str", "status", "int", "intstr", "float", "bool", "strs", "strset", "ints", "intstrs", "floats", "bools",
               "strmap", "intmap", "intstrmap", "zscore", "zscores", "xentry", "xrange", "xread", "scan", "lmpop",
-              "zmpop", "ftsearch", "ftagg", "geo", "json", "jsons", "tree"}
+              "zmpop", "ftsearch", "ftagg", "geo", "json", "jsons", "tree", "num", "numint", "numarr", "numscan", "nummap", "numdbl"}
 Data(c) == CASE c = "str" -> D_str [] c = "status" -> D_status [] c = "int" -> D_int [] c = "intstr" -> D_intstr
              [] c = "float" -> D_float [] c = "bool" -> D_bool [] c = "strs" -> D_strs [] c = "strset" -> D_strset
              [] c = "ints" -> D_ints [] c = "intstrs" -> D_intstrs [] c = "floats" -> D_floats [] c = "bools" -> D_bools
@@ -405,6 +484,8 @@ Data(c) == CASE c = "str" -> D_str [] c = "status" -> D_status [] c = "int" -> D
              [] c = "xrange" -> D_xrange [] c = "xread" -> D_xread [] c = "scan" -> D_scan [] c = "lmpop" -> D_lmpop
              [] c = "zmpop" -> D_zmpop [] c = "ftsearch" -> D_ftsearch [] c = "ftagg" -> D_ftagg [] c = "geo" -> D_geo
              [] c = "json" -> D_json [] c = "jsons" -> D_jsons [] c = "tree" -> D_tree
+             [] c = "num" -> D_num [] c = "numint" -> D_numint [] c = "numarr" -> D_numarr [] c = "numscan" -> D_numscan
+             [] c = "numdbl" -> D_numdbl [] c = "nummap" -> D_nummap
 Shape(c, d, p) ==
            CASE c = "str" -> S_str(d, p) [] c = "status" -> S_status(d, p) [] c = "int" -> S_int(d, p)
              [] c = "intstr" -> S_intstr(d, p) [] c = "float" -> S_float(d, p) [] c = "bool" -> S_bool(d, p)
@@ -416,6 +497,8 @@ Shape(c, d, p) ==
              [] c = "lmpop" -> S_lmpop(d, p) [] c = "zmpop" -> S_zmpop(d, p) [] c = "ftsearch" -> S_ftsearch(d, p)
              [] c = "ftagg" -> S_ftagg(d, p) [] c = "geo" -> S_geo(d, p) [] c = "json" -> S_json(d, p)
              [] c = "jsons" -> S_jsons(d, p) [] c = "tree" -> S_tree(d, p)
+             [] c = "num" -> S_num(d, p) [] c = "numint" -> S_numint(d, p) [] c = "numarr" -> S_numarr(d, p)
+             [] c = "numscan" -> S_numscan(d, p) [] c = "numdbl" -> S_numdbl(d, p) [] c = "nummap" -> S_nummap(d, p)
 Expect(c, d, p) ==
            CASE c = "str" -> X_str(d, p) [] c = "status" -> X_str(d, p) [] c = "int" -> X_int(d, p)
              [] c = "intstr" -> X_intstr(d, p) [] c = "float" -> X_float(d, p) [] c = "bool" -> X_bool(d, p)
@@ -427,6 +510,8 @@ Expect(c, d, p) ==
              [] c = "lmpop" -> X_lmpop(d, p) [] c = "zmpop" -> X_zmpop(d, p) [] c = "ftsearch" -> X_ftsearch(d, p)
              [] c = "ftagg" -> X_ftagg(d, p) [] c = "geo" -> X_geo(d, p) [] c = "json" -> X_json(d, p)
              [] c = "jsons" -> X_jsons(d, p) [] c = "tree" -> X_tree(d, p)
+             [] c = "num" -> X_num(d, p) [] c = "numint" -> X_numint(d, p) [] c = "numarr" -> X_numarr(d, p)
+             [] c = "numscan" -> X_numscan(d, p) [] c = "numdbl" -> X_numdbl(d, p) [] c = "nummap" -> X_nummap(d, p)
 
 \* a label for the data inside its class: part of a violation signature ("<accessor>-wrong-<label>-<resp2|resp3>")
 Label(c, d) ==
@@ -435,6 +520,9 @@ Label(c, d) ==
       [] c = "geo"      -> c \o (IF d.wd THEN "-withdist" ELSE "") \o (IF d.wh THEN "-withhash" ELSE "")
                              \o (IF d.wc THEN "-withcoord" ELSE "")
       [] c = "ftagg"    -> c \o (IF d[2] = -1 THEN "" ELSE "-withcursor")
+      [] c \in {"num", "numarr", "numscan", "nummap"} -> c \o "-" \o NumLabel(d)
+      [] c = "numint"   -> c \o "-" \o (IF d = "9223372036854775807" THEN "i64max" ELSE IF d = "-9223372036854775808" THEN "i64min" ELSE d)
+      [] c = "numdbl"   -> c \o "-" \o d
       [] OTHER -> c
 
 Exp16(c, d, p) == Expect(c, d, p) \o Common(Shape(c, d, p))
@@ -444,7 +532,8 @@ Case16 == [prop |-> "C16", fam |-> fam, cls |-> Label(fam, dat), proto |-> pro, 
 \* ---- the accessors that return an error, and the outcome class the API documents for them
 (* outcome classes:  V value, no error      N the Nil error       R *RedisError carrying the reply's text
                      P parse error          VE value or any error  A anything but a panic
-                     T the transport error the RedisResult was built with (no reply at all) *)
+                     T the transport error the RedisResult was built with (no reply at all)
+                     X an error of whatever kind: not a value, not a panic (family comp) *)
 StrAccs    == {"ToString", "AsBytes", "AsReader"}
 SliceAccs  == {"AsStrSlice", "AsIntSlice", "AsFloatSlice", "AsBoolSlice"}
 ArrAccs    == {"AsXRangeEntry", "AsXRange", "AsXRangeSlice", "AsXRangeSlices", "AsZScore", "AsZScores", "AsScanEntry",
@@ -489,7 +578,7 @@ Rule(acc, n) ==     \* n: the decoded tree
            [] acc = "AsIntMap"   -> IF T \in {"arr", "map"} /\ EvenLen(n) THEN "VE" ELSE "P"
            [] acc \in PopAccs \cup FtAccs -> IF T \in {"arr", "map", "push"} THEN "VE" ELSE "P"
 
-OutClasses == {"V", "N", "R", "P", "VE", "A", "T"}
+OutClasses == {"V", "N", "R", "P", "VE", "A", "T", "X"}
 Rules(t) == LET n == Norm(t)
                 r == [acc \in Accs |-> Rule(acc, n)] IN
             [c \in OutClasses |-> {acc \in Accs : r[acc] = c}]
@@ -556,6 +645,7 @@ Rich(c) == CASE c = "strs" -> <<"a", NILS>> [] c = "ints" -> <<7, NILI>> [] c = 
              [] c = "geo" -> [wd |-> TRUE, wh |-> TRUE, wc |-> TRUE, locs |-> <<<<"p1", <<3, 2>>, 1234, <<<<27, 2>>, <<-75, 2>>>>>>>>]
              [] c = "geo-coord" -> [wd |-> FALSE, wh |-> FALSE, wc |-> TRUE, locs |-> <<<<"p1", ZERO, 0, <<<<27, 2>>, <<-75, 2>>>>>>>>]
              [] c = "jsons" -> <<[n |-> 7, s |-> "a"], NILJ>>
+             [] c = "intstrs" -> <<7, -1>> [] c = "intstrmap" -> <<<<"k1", 5>>>>
 BaseClass(c) == CASE c \in {"ftsearch-noscore", "ftsearch-nocontent"} -> "ftsearch" [] c = "ftagg-cursor" -> "ftagg"
                   [] c = "geo-coord" -> "geo" [] OTHER -> c
 MutBases == {"strs", "ints", "floats", "strmap", "intmap", "zscore", "zscores", "xentry", "xrange", "xread", "scan",
@@ -588,6 +678,87 @@ Mutate(b, q, op) ==
 MutApplies(b, q, op) == IF op \in {"droplast", "dropfirst", "repeatfirst"} THEN Len(At(b, q).a) > 0
                         ELSE IF op = "none" THEN q = <<>> ELSE TRUE
 MutData(p) == UNION {{[c |-> c, q |-> q, op |-> op] : q \in Paths(BaseTree(c, p)), op \in MutOps} : c \in MutBases}
+
+\* ---- composites with exactly ONE malformed component (round 2)
+(* A structured reply is a tree of components, each read by one conversion of the code: the SCAN cursor by AsUint64,
+   the elements by AsStrSlice, a score by AsFloat64, a stream entry by AsXRangeEntry ...  CompRoles lists, per
+   structured class and protocol, the components the helper MUST be able to read (name for the signature, path,
+   role = which conversion reads it, the accessors that read it); RoleOps the malformed values a role cannot read
+   (the code as it is: components read with the lenient string()/intlen are not listed).  Every case substitutes
+   ONE component of a well-formed reply; the other components stay fine.  Predicted for the accessors of the role:
+   X "an error, whatever its kind" - never a value (a partial result presented as success), never a panic; where
+   the conversion is applied to the component directly, a nil component gives N and an error component R with the
+   component's text.  All other accessors keep their Rule class. *)
+CR(name, q, role, accs) == [name |-> name, q |-> q, role |-> role, accs |-> accs]
+ZAcc  == {"AsZScores"}
+XEAcc == {"AsXRangeEntry"}
+XSAcc == {"AsXRangeSlice"}
+XRAcc == {"AsXRange", "AsXRangeSlices"}
+XDAcc == {"AsXRead", "AsXReadSlices"}
+XEntryRoles(pre, ea, sa) ==      \* the components of one stream entry at path pre, read by accessors ea (maps) and sa (slices)
+    {CR("entry-id", pre \o <<1>>, "str", ea \cup sa), CR("entry-fields", pre \o <<2>>, "fvmap", ea),
+     CR("entry-fields", pre \o <<2>>, "fvarr", sa)}
+CompRoles(c, p) ==
+    CASE c = "scan"    -> {CR("cursor", <<1>>, "u64", {"AsScanEntry"}), CR("elements", <<2>>, "strs", {"AsScanEntry"})}
+      [] c = "zscore"  -> {CR("member", <<1>>, "str", {"AsZScore"}), CR("score", <<2>>, "f64", {"AsZScore"})}
+      [] c = "zscores" -> IF p = 2 THEN {CR("member", <<1>>, "str", ZAcc), CR("score", <<2>>, "f64", ZAcc),
+                                          CR("member", <<3>>, "str", ZAcc), CR("score", <<4>>, "f64", ZAcc)}
+                          ELSE {CR("pair", <<1>>, "pair", ZAcc), CR("pair", <<2>>, "pair", ZAcc),
+                                CR("member", <<1, 1>>, "str", ZAcc), CR("score", <<1, 2>>, "f64", ZAcc),
+                                CR("member", <<2, 1>>, "str", ZAcc), CR("score", <<2, 2>>, "f64", ZAcc)}
+      [] c = "xentry"  -> XEntryRoles(<<>>, XEAcc, XSAcc)
+      [] c = "xrange"  -> {CR("entry", <<1>>, "entry", XRAcc), CR("entry", <<2>>, "entry", XRAcc)}
+                          \cup XEntryRoles(<<1>>, {"AsXRange"}, {"AsXRangeSlices"})
+                          \cup XEntryRoles(<<2>>, {"AsXRange"}, {"AsXRangeSlices"})
+      [] c = "xread"   -> IF p = 2 THEN {CR("stream", <<1>>, "pair2", XDAcc), CR("entries", <<1, 2>>, "entries", XDAcc),
+                                          CR("entry", <<1, 2, 1>>, "entry", XDAcc)}
+                                         \cup XEntryRoles(<<1, 2, 1>>, {"AsXRead"}, {"AsXReadSlices"})
+                          ELSE {CR("entries", <<2>>, "entries", XDAcc), CR("entry", <<2, 1>>, "entry", XDAcc)}
+                               \cup XEntryRoles(<<2, 1>>, {"AsXRead"}, {"AsXReadSlices"})
+      [] c = "lmpop"   -> {CR("values", <<2>>, "strs", {"AsLMPop"})}
+      [] c = "zmpop"   -> {CR("values", <<2>>, "zs", {"AsZMPop"}), CR("member", <<2, 1, 1>>, "str", {"AsZMPop"}),
+                           CR("score", <<2, 1, 2>>, "f64", {"AsZMPop"})}
+      [] c = "geo"     -> {CR("location", <<1>>, "geoloc", {"AsGeosearch"}), CR("dist", <<1, 2>>, "geodist", {"AsGeosearch"}),
+                           CR("coordinates", <<1, 4>>, "coord", {"AsGeosearch"})}
+      [] c = "intstrs" -> {CR("element", <<1>>, "numelem", {"AsIntSlice"})}
+      [] c = "floats"  -> IF p = 2 THEN {CR("element", <<1>>, "numelem", {"AsFloatSlice"})} ELSE {}
+      [] c = "intstrmap" -> {CR("value", <<2>>, "numelem", {"AsIntMap"})}
+      [] c = "jsons"   -> {CR("document", <<1>>, "json", {"DecodeSliceOfJSON"})}
+      \* FT.*: RESP2 replies are read leniently throughout; in the RESP3 envelope a result record must be a whole map
+      [] c = "ftsearch" -> IF p = 3 THEN {CR("record", <<10, 1>>, "ftrecord", {"AsFtSearch"}),
+                                          CR("record", <<10, 2>>, "ftrecord", {"AsFtSearch"})} ELSE {}
+      [] c = "ftagg"    -> IF p = 3 THEN {CR("record", <<10, 1>>, "ftrecord", {"AsFtAggregate", "AsFtAggregateCursor"})} ELSE {}
+      [] c = "ftagg-cursor" -> IF p = 3 THEN {CR("record", <<1, 10, 1>>, "ftrecord", {"AsFtAggregateCursor"})} ELSE {}
+CompBases == {"scan", "zscore", "zscores", "xentry", "xrange", "xread", "lmpop", "zmpop", "geo", "intstrs", "floats",
+              "intstrmap", "jsons", "ftsearch", "ftagg", "ftagg-cursor"}
+CompSubst == Subst \o << [name |-> "negative", n |-> Bulk("-1")], [name |-> "bool", n |-> BoolN(TRUE)] >>
+CompNode(op) == (CHOOSE x \in Range(CompSubst) : x.name = op).n
+RoleOps(role) ==
+    CASE role = "u64"     -> {"null", "error", "emptyarr", "arr1", "str", "emptystr", "emptymap", "double", "negative", "bool"}
+      [] role = "f64"     -> {"null", "error", "emptyarr", "arr1", "str", "emptystr", "emptymap", "int", "bool"}
+      [] role = "str"     -> {"null", "error", "emptyarr", "arr1", "int", "emptymap"}
+      [] role = "strs"    -> {"null", "error", "str", "emptystr", "int", "emptymap", "double"}
+      [] role = "fvmap"   -> {"error", "int", "str", "emptystr", "arr1", "double"}       \* a nil field list is a deleted entry: fine
+      [] role = "fvarr"   -> {"error", "int", "str", "emptystr", "emptymap", "double"}
+      [] role = "entry"   -> {"null", "error", "int", "str", "emptyarr", "arr1", "emptymap"}
+      [] role = "pair"    -> {"null", "error", "int", "str", "emptyarr", "arr1"}
+      [] role = "pair2"   -> {"null", "error", "int", "str", "emptyarr", "arr1", "emptymap"}
+      [] role = "entries" -> {"null", "error", "int", "str", "emptymap"}
+      [] role = "zs"      -> {"null", "error", "int", "str", "emptymap"}
+      [] role = "geoloc"  -> {"null", "error", "int", "emptyarr", "emptymap", "double", "bool"}
+      [] role = "geodist" -> {"str"}
+      [] role = "coord"   -> {"emptyarr", "arr1"}
+      [] role = "numelem" -> {"str"}
+      [] role = "json"    -> {"str", "error", "int", "emptyarr"}
+      [] role = "ftrecord" -> {"oddmap"}
+\* the conversion is applied to the component itself: nil and error components surface as they are
+CompDirect(c, cr) == c \in {"scan", "zscore", "xentry", "lmpop"} /\ Len(cr.q) = 1
+CompClass(c, cr, op) == IF CompDirect(c, cr) /\ op = "null" THEN "N" ELSE IF CompDirect(c, cr) /\ op = "error" THEN "R" ELSE "X"
+CompData(p) == UNION {UNION {{[c |-> c, cr |-> cr, op |-> op] : op \in RoleOps(cr.role)} : cr \in CompRoles(c, p)} : c \in CompBases}
+CompTree(d, p) == Put(BaseTree(d.c, p), d.cr.q, CompNode(d.op))
+CompRules(d, t) == LET base == Rules(t)  cl == CompClass(d.c, d.cr, d.op) IN
+                   IF BugCompKeepsRule THEN base
+                   ELSE [k \in OutClasses |-> IF k = cl THEN base[k] \cup d.cr.accs ELSE base[k] \ d.cr.accs]
 
 \* ---- error texts:  code { " " field }   and the RedisError classifiers
 ErrCodes == {"MOVED", "ASK", "REDIRECT", "TRYAGAIN", "LOADING", "CLUSTERDOWN", "NOSCRIPT", "BUSYGROUP", "READONLY",
@@ -624,11 +795,12 @@ ErrLabel(e) == (IF e.code = "" THEN "nocode" ELSE e.code) \o "-" \o
                \o (IF e.addr # NOADDR /\ e.addr.v6 THEN "-ipv6" ELSE "")
 
 \* ---- dispatch
-Classes15 == {"leaf", "flat", "nest", "mut", "errtext", "neterr"}
+Classes15 == {"leaf", "flat", "nest", "mut", "comp", "errtext", "neterr"}
 Data15(c, p) == CASE c = "leaf" -> DOMAIN Leaves
                [] c = "flat" -> {x \in FlatKinds \X FlatSeqs : x[1] = "map" => Len(x[2]) % 2 = 0}
                [] c = "nest" -> NestKinds \X NestIdx
                [] c = "mut"  -> MutData(p)
+               [] c = "comp" -> CompData(p)
                [] c = "errtext" -> ErrData(p)
                [] c = "neterr" -> {0}
 NestKids(ix) == [j \in DOMAIN ix |-> NestElems[ix[j]].n]
@@ -637,6 +809,7 @@ Tree15(c, d, p) ==
       [] c = "flat" -> Agg(d[1], d[2])
       [] c = "nest" -> FixMap(Agg(IF d[1] = "smap" THEN "map" ELSE d[1], NestKids(d[2])))
       [] c = "mut"  -> Mutate(BaseTree(d.c, p), d.q, d.op)
+      [] c = "comp" -> CompTree(d, p)
       [] c = "errtext" -> ErrTree(d)
       [] c = "neterr" -> Null3
 Label15(c, d, p) ==
@@ -644,24 +817,30 @@ Label15(c, d, p) ==
       [] c = "flat" -> d[1] \o "-" \o LenClass(Len(d[2]))
       [] c = "nest" -> d[1] \o "-of" \o NestNames(d[2])
       [] c = "mut"  -> d.c \o "-resp" \o ToString(p) \o "-" \o d.op \o "-at-depth" \o ToString(Len(d.q))
+      [] c = "comp" -> d.c \o "-resp" \o ToString(p) \o "-" \o d.cr.name \o "-is-" \o d.op
       [] c = "errtext" -> "error-" \o ErrLabel(d)
       [] c = "neterr" -> "transport-error"
 \* which (class, datum, proto) combinations are cases at all
 Valid15(c, d, p) ==
     CASE c = "mut" -> MutApplies(BaseTree(d.c, p), d.q, d.op)
       [] c = "nest" -> p = 3 /\ (d[1] = "map" => Len(d[2]) % 2 = 0) /\ (d[1] = "smap" => Len(d[2]) % 2 = 1)
+      [] c = "comp" -> d.cr.q \in Paths(BaseTree(d.c, p)) /\ At(BaseTree(d.c, p), d.cr.q) # CompNode(d.op)
       [] OTHER -> p = 3
 
-Exp15(c, d, t) == [rules |-> IF c = "neterr" THEN [cl \in OutClasses |-> IF cl = "T" THEN Accs ELSE {}] ELSE Rules(t),
-                    errtext |-> ErrText(t),
+Exp15(c, d, t) == [rules |-> IF c = "neterr" THEN [cl \in OutClasses |-> IF cl = "T" THEN Accs ELSE {}]
+                              ELSE IF c = "comp" THEN CompRules(d, t) ELSE Rules(t),
+                    errtext |-> IF c = "comp" /\ d.op = "error" THEN CompNode("error").s ELSE ErrText(t),
                     classify |-> IF c = "errtext" THEN Classify(d) ELSE [IsNil |-> Norm(t).t = "null"]]
 Case15 == [prop |-> "C15", fam |-> fam, cls |-> Label15(fam, dat, pro), proto |-> pro, tree |-> tree,
            rules |-> exp.rules, errtext |-> exp.errtext, classify |-> exp.classify]
 
 \* =================================================================================================== behaviour
-Fams(all) == IF OnlyFam = "" THEN all ELSE all \cap {OnlyFam}
+Round2Fams == {"num", "numint", "numarr", "numscan", "nummap", "numdbl", "comp"}
+Fams(all) == IF OnlyFam = "" THEN all ELSE IF OnlyFam = "round2" THEN all \cap Round2Fams ELSE all \cap {OnlyFam}
 Init == /\ pro \in {2, 3}
-        /\ \/ /\ Gen = "c16" /\ fam \in Fams(Classes16) /\ (fam = "tree" => pro = 3) /\ dat \in Data(fam)
+        /\ \/ /\ Gen = "c16" /\ fam \in Fams(Classes16) /\ (fam \in {"tree", "numdbl"} => pro = 3)
+              /\ (fam \in {"num", "numarr", "numscan"} => pro = 2)       \* bulk strings: the same bytes in both protocols
+              /\ dat \in Data(fam)
               /\ tree = Shape(fam, dat, pro) /\ exp = Exp16(fam, dat, pro)
            \/ /\ Gen = "c15" /\ fam \in Fams(Classes15) /\ dat \in Data15(fam, pro) /\ Valid15(fam, dat, pro)
               /\ tree = Tree15(fam, dat, pro) /\ exp = Exp15(fam, dat, tree)
@@ -691,6 +870,21 @@ RedirectHasAddr == (Gen = "c15" /\ fam = "errtext") =>
                      LET c == exp.classify IN
                      /\ \A r \in {c.IsMoved, c.IsAsk, c.IsRedirect} : r.ok <=> r.addr # ""
                      /\ Cardinality({k \in {"IsMoved", "IsAsk", "IsRedirect"} : c[k].ok}) <= 1
+
+\* the boundaries of the integer types, stated on the data themselves (not through MagRank): 2^63 - 1 is the last int64,
+\* -2^63 the first, 2^64 - 1 the last uint64; nothing negative is unsigned; whatever both types accept has one text
+NumRanges == (Gen = "c16" /\ fam = "num" /\ dat.form = "dec") =>
+               LET i == NumI64(dat) # FAIL  u == NumU64(dat) # FAIL  t == NumText(dat) IN
+               /\ (t \in {"9223372036854775807", "-9223372036854775808"} => i)
+               /\ (t \in {"9223372036854775808", "-9223372036854775809"} => ~i)
+               /\ (t \in {"9223372036854775808", "18446744073709551615"} => u)
+               /\ (t = "18446744073709551616" => ~u)
+               /\ (dat.sg = "-" => ~u)
+               /\ (i /\ u => NumI64(dat) = NumU64(dat))
+               /\ (u => NumU64(dat) = DEC(t))
+\* a helper that must read a malformed component never gets a class that admits a value
+CompNeverValue == (Gen = "c15" /\ fam = "comp") =>
+                    \A acc \in dat.cr.accs : \E k \in {"N", "R", "X"} : acc \in exp.rules[k]
 
 EmitCase == Emit => PrintT(<<"CASE", ToJson(IF Gen = "c16" THEN Case16 ELSE Case15)>>)
 =============================================================================
